@@ -58,14 +58,14 @@ func makeWorld(rng *rand.Rand) *world {
 		w.Uni = append(w.Uni, sto.FromBytes(data))
 		return len(w.Uni) - 1
 	}
-	add(nil)                         // 0: the empty blob
-	add(randBytes(rng, 1))           // 1
-	add(randBytes(rng, 7))           // 2
-	add(randBytes(rng, 40))          // 3
-	add(make([]byte, 64))            // 4: zeros (a zeroed body is indistinguishable from the blob)
-	add(randBytes(rng, 150))         // 5
-	add(randBytes(rng, 185))         // 6: largest record <= 256 bytes
-	add(randBytes(rng, 300))         // 7
+	add(nil)                           // 0: the empty blob
+	add(randBytes(rng, 1))             // 1
+	add(randBytes(rng, 7))             // 2
+	add(randBytes(rng, 40))            // 3
+	add(make([]byte, 64))              // 4: zeros (a zeroed body is indistinguishable from the blob)
+	add(randBytes(rng, 150))           // 5
+	add(randBytes(rng, 185))           // 6: largest record <= 256 bytes
+	add(randBytes(rng, 300))           // 7
 	w.big2 = add(randBytes(rng, 2300)) // 8: larger than maxFileSize
 	w.small = add(randBytes(rng, 20+rng.Intn(150)))
 	w.large = add(randBytes(rng, 700))
@@ -334,7 +334,7 @@ func (o *oracle) violation(sig, what string) {
 	o.violations++
 	kind := sigKind(o.info.Kind)
 	if o.liveKind != "" && strings.Contains(sig, "diskpacked-kv") {
-		kind = o.liveKind
+		sig, kind = "real-kill-kv/"+sig, o.liveKind
 	}
 	if strings.HasPrefix(kind, "pl-") {
 		sig, kind = "power-loss/"+sig, strings.TrimPrefix(kind, "pl-")
